@@ -200,6 +200,28 @@ func (bc *buildCtx) realImpl(d *D) interface{} {
 	case "ptrStr":
 		x := string(d.S)
 		return &x
+	case "ptrptr":
+		x := int(d.N)
+		px := &x
+		return &px
+	case "parr": // pointer to a byte array: the addressable-array path of %s/%x/%q
+		var a [3]byte
+		copy(a[:], d.S)
+		return &a
+	case "iarr":
+		return [2]int{int(d.N), int(d.N >> 3)}
+	case "sarr":
+		return [2]string{string(d.S), ""}
+	case "SArr": // arrays inside a struct passed by value: not addressable
+		var a [3]byte
+		copy(a[:], d.S)
+		return tSArr{a, [2]int{int(d.N), 7}, [1]string{string(d.S)}}
+	case "SNils":
+		return tSNils{}
+	case "NFunc":
+		return tNFunc(nil)
+	case "NChan":
+		return tNChan(sharedChan)
 	case "chan":
 		return sharedChan
 	case "nilChan":
@@ -921,3 +943,23 @@ func floatOf(d *D) float64 {
 	}
 	return d.F
 }
+
+type tSArr struct {
+	B [3]byte
+	I [2]int
+	S [1]string
+}
+
+type tSNils struct {
+	M map[string]int
+	S []int
+	P *int
+	F func()
+	C chan int
+	I interface{}
+	E error
+	B []byte
+}
+
+type tNFunc func()
+type tNChan chan int
